@@ -251,10 +251,10 @@ def run(ctx):
     ctx.model_check('CartMem', MC_CFG, name='MC_CartMem', workers=16)
     nseq, depth = (300, 10) if ctx.quick else (6000, 12)
     total = 0
-    runs = [((37, 11), 'random', nseq, depth), ((101, 200), 'rmr', nseq, 5)] if ctx.quick else \
-           [((37, 11), 'random', nseq, depth), ((101, 200), 'random', nseq, depth), ((1, 0), 'rmr', nseq * 2, 5), ((255, 255), 'rmr', nseq * 2, 6)]
+    runs = [((37, 11), 'random', nseq, depth), ((101, 200), 'rmr', nseq * 4, 4)] if ctx.quick else \
+           [((37, 11), 'random', nseq, depth), ((101, 200), 'random', nseq, depth), ((1, 0), 'rmr', nseq, 5), ((255, 255), 'rmr', nseq, 6)]
     for (mul, add), mode, ns, dp in runs:
-        r = ctx.tlc('CartMem', CFG % (mul, add, dp, ns, mode), name='GenCartMem_%s_%d' % (mode, mul), extra=['-seed', str(ctx.seed + mul)])
+        r = ctx.tlc('CartMem', CFG % (mul, add, dp, ns, mode), name='GenCartMem_%s_%d' % (mode, mul), extra=['-seed', str(ctx.seed + mul)], timeout=3000)
         steps = r.jsons
         if len(steps) != ns * dp:
             raise core.MachineryError('CartMem printed %d steps, expected %d' % (len(steps), ns * dp))
